@@ -340,6 +340,7 @@ func check(prop string, args []string) int {
 		cfg.PortfolioS = 120
 		cfg.MaxPaths = 1500000
 		cfg.Deadline = 40 * time.Minute
+		cfg.XCheckEvery = 50 // every 50th solver answer is re-decided by cvc5
 	}
 	if *maxPaths > 0 {
 		cfg.MaxPaths = *maxPaths
@@ -557,6 +558,7 @@ func check(prop string, args []string) int {
 		"queries_discharged": map[string]int64{
 			"total": atomic.LoadInt64(&solver.Global.Queries), "sat": solver.Global.Sat, "unsat": solver.Global.Unsat,
 			"unknown": solver.Global.Unknown, "errors": solver.Global.Errors, "portfolio_runs": solver.Global.Portfolio,
+			"cross_checked_by_cvc5": solver.Global.CrossChecks, "solver_disagreements": solver.Global.Disagreements,
 		},
 		"solver_time_s":             float64(solver.Global.Nanos) / 1e9,
 		"solvers":                   []string{"z3 4.8.12 (incremental, per worker)", "portfolio on unknown: cvc5 1.0.3, cvc5 --solve-bv-as-int=sum, z3 5.1.0"},
